@@ -70,6 +70,52 @@ impl RandomProp for WellFormed {
     }
 }
 
+pub struct WellFormedLarge;
+impl Prop for WellFormedLarge {
+    type Case = FileCase;
+    fn name() -> &'static str {
+        "wellformed-large"
+    }
+    fn rule() -> &'static str {
+        "proptest: the wellformed oracle on LARGE files (130-420 records, or 260-330 parts, or 70-300 points per part); non-trivial: every case"
+    }
+    fn check(c: &FileCase, ctx: &mut Ctx) -> Result<(), Fail> {
+        ctx.nontrivial();
+        WellFormed::check(c, ctx)
+    }
+}
+impl RandomProp for WellFormedLarge {
+    fn strategy(_env: &Env) -> BoxedStrategy<FileCase> {
+        large_file_case(true)
+    }
+    fn cases(env: &Env) -> u64 {
+        env.n(13 * 6, 13 * 400)
+    }
+}
+
+pub struct IndexLarge;
+impl Prop for IndexLarge {
+    type Case = FileCase;
+    fn name() -> &'static str {
+        "index-large"
+    }
+    fn rule() -> &'static str {
+        "proptest: the index oracle on LARGE files (130-420 records, or 260-330 parts, or 70-300 points per part); non-trivial: every case"
+    }
+    fn check(c: &FileCase, ctx: &mut Ctx) -> Result<(), Fail> {
+        ctx.nontrivial();
+        IndexAddresses::check(c, ctx)
+    }
+}
+impl RandomProp for IndexLarge {
+    fn strategy(_env: &Env) -> BoxedStrategy<FileCase> {
+        large_file_case(true)
+    }
+    fn cases(env: &Env) -> u64 {
+        env.n(13 * 8, 13 * 400)
+    }
+}
+
 fn wellformed_k<K: Kind>(c: &FileCase, ctx: &mut Ctx) -> Result<(), Fail> {
     classify_file(ctx, &c.geoms);
     if c.geoms.len() >= 2 || !matches!(c.ty, Ty::Point | Ty::Polyline | Ty::Polygon) {
@@ -79,7 +125,7 @@ fn wellformed_k<K: Kind>(c: &FileCase, ctx: &mut Ctx) -> Result<(), Fail> {
     let written: Vec<Geom> = views(&shapes).iter().map(file_view).collect();
     let mut first: Option<Vec<u8>> = None;
     for with_shx in [true, false] {
-        let (shp, _shx) = match write_bytes(&shapes, with_shx, c.fin) {
+        let (shp, _shx) = match write_bytes_fins(&shapes, with_shx, c.fin, c.mid_fins) {
             Ok(x) => x,
             Err(e) => fail!("write-error", "{}", e),
         };
@@ -181,8 +227,11 @@ fn index_k<K: Kind>(c: &FileCase, ctx: &mut Ctx) -> Result<(), Fail> {
         let p = dir.join("c04.shp");
         {
             let mut w = shapefile::ShapeWriter::from_path(&p).map_err(|e| Fail::new("write-error", err_str(&e)))?;
-            for s in &shapes {
+            for (i, s) in shapes.iter().enumerate() {
                 w.write_shape(s).map_err(|e| Fail::new("write-error", err_str(&e)))?;
+                if c.mid_fins & (1 << (i % 32)) != 0 {
+                    w.finalize().map_err(|e| Fail::new("write-error", err_str(&e)))?;
+                }
             }
             if c.fin == Finish::FinalizeDrop {
                 w.finalize().map_err(|e| Fail::new("write-error", err_str(&e)))?;
@@ -195,7 +244,7 @@ fn index_k<K: Kind>(c: &FileCase, ctx: &mut Ctx) -> Result<(), Fail> {
         ensure!(r.shape_count().ok() == Some(n), "shape-count", "from_path reader reports {:?} shapes, {} written", r.shape_count().ok(), n);
         (a, b)
     } else {
-        match write_bytes(&shapes, true, c.fin) {
+        match write_bytes_fins(&shapes, true, c.fin, c.mid_fins) {
             Ok((a, b)) => (a, b.unwrap()),
             Err(e) => fail!("write-error", "{}", e),
         }
